@@ -610,7 +610,8 @@ int disasm_arm64(
 
           if (v == 1)
           {
-            int scalar = size | (((opcode >> 23) & 1) << 2);
+            // The access size is in bits 31-30 (size here is bits 23-22).
+            int scalar = (opcode >> 30) | (((opcode >> 23) & 1) << 2);
             if (scalar > 4) { continue; }
             reg_name = scalar_size[scalar];
           }
